@@ -1,10 +1,17 @@
 #!/usr/bin/env python3
-"""Apply a seeded change from /verif/seeded/<name>/patch.diff to /repo, run checks against it, undo it.
+"""Apply a seeded change from /verif/seeded/<name>/patch.diff, run checks against it, undo it.
 
-usage: tools_seeded.py <name> [--tier quick|thorough] [CHECK ...]     (default checks: the property named in meta.json)
-Writes /verif/seeded/<name>/result.json.  /repo is always restored (git checkout -- .).
+usage: tools_seeded.py <name> [--tier quick|thorough] [--scratch DIR] [CHECK ...]
+       (default checks: the property named in meta.json)
+
+Default: the change is applied to /repo (git -C /repo apply), the checks rebuild from /repo's working
+tree as they always do, and /repo is restored (git checkout -- .) whatever happens.
+--scratch DIR: apply it to a scratch git worktree of /repo instead (VERIF_REPO=DIR, separate build
+directory /verif/build2) so that several changes can be tried while /repo is busy.
+Evidence and replay files of these runs go to /verif/seeded/<name>/{evidence,replays}, never to
+/verif/evidence.  Writes /verif/seeded/<name>/result.json.
 """
-import json, os, subprocess, sys, time
+import json, os, shutil, subprocess, sys, time
 
 V = os.path.dirname(os.path.abspath(__file__))
 
@@ -12,41 +19,64 @@ V = os.path.dirname(os.path.abspath(__file__))
 def main():
     args = sys.argv[1:]
     tier = "quick"
+    repo = "/repo"
     if "--tier" in args:
         i = args.index("--tier")
         tier = args[i + 1]
+        del args[i:i + 2]
+    if "--scratch" in args:
+        i = args.index("--scratch")
+        repo = args[i + 1]
         del args[i:i + 2]
     name = args[0]
     d = os.path.join(V, "seeded", name)
     meta = json.load(open(os.path.join(d, "meta.json")))
     checks = args[1:] or [meta["property"]]
-    st = subprocess.run(["git", "-C", "/repo", "status", "--porcelain", "--untracked-files=no"], stdout=subprocess.PIPE).stdout.decode()
+    st = subprocess.run(["git", "-C", repo, "status", "--porcelain", "--untracked-files=no"], stdout=subprocess.PIPE).stdout.decode()
     if st.strip():
-        sys.exit("refusing: /repo has uncommitted changes:\n" + st)
-    r = subprocess.run(["git", "-C", "/repo", "apply", os.path.join(d, "patch.diff")], stderr=subprocess.PIPE)
+        sys.exit("refusing: %s has uncommitted changes:\n%s" % (repo, st))
+    r = subprocess.run(["git", "-C", repo, "apply", os.path.join(d, "patch.diff")], stderr=subprocess.PIPE)
     if r.returncode != 0:
         sys.exit("patch does not apply: " + r.stderr.decode())
-    out = {"tier": tier, "checks": {}}
+    rf = os.path.join(d, "result.json")
+    try:
+        out = json.load(open(rf))
+    except Exception:
+        out = {}
+    out.setdefault("checks", {})
+    out["applied_to"] = repo
+    for sub in ("evidence", "replays"):
+        shutil.rmtree(os.path.join(d, sub), ignore_errors=True)
     try:
         for c in checks:
             t0 = time.time()
             env = dict(os.environ)
             env["VERIF_REPLAY_DIR"] = os.path.join(d, "replays")
+            env["VERIF_EVIDENCE_DIR"] = os.path.join(d, "evidence")
+            if repo != "/repo":
+                env["VERIF_REPO"] = repo
+                env["VERIF_BUILD"] = os.path.join(V, "build2")
             p = subprocess.run([os.path.join(V, "check"), c, "--tier", tier], stdout=subprocess.PIPE, stderr=subprocess.STDOUT, env=env, cwd=V)
             txt = p.stdout.decode("latin-1")
             viol = [l for l in txt.splitlines() if l.startswith("VIOLATION")]
             reasons = [l.strip()[:300] for l in txt.splitlines() if l.startswith("  " + c + ":")][:5]
-            out["checks"][c] = {"exit": p.returncode, "violations": len(viol), "wall_s": round(time.time() - t0, 1), "reasons": reasons,
-                                "caught": p.returncode == 1 and bool(viol)}
+            out["checks"][c + ":" + tier] = {"exit": p.returncode, "violations": len(viol), "wall_s": round(time.time() - t0, 1),
+                                             "reasons": reasons, "caught": p.returncode == 1 and bool(viol), "tail": txt[-500:],
+                                             "when": time.strftime("%Y-%m-%d %H:%M"), "applied_to": repo}
             print("%s on %s: exit %d, %d VIOLATION line(s), %.0fs" % (c, name, p.returncode, len(viol), time.time() - t0))
             for x in reasons[:3]:
                 print("     " + x[:200])
     finally:
-        subprocess.run(["git", "-C", "/repo", "checkout", "--", "."])
-        # evidence files were rewritten against the modified tree: restore the committed ones
-        subprocess.run(["git", "-C", V, "checkout", "--", "evidence"], stderr=subprocess.DEVNULL)
-        subprocess.run(["git", "-C", V, "clean", "-fdq", "replays"], stderr=subprocess.DEVNULL)
-    json.dump(out, open(os.path.join(d, "result.json"), "w"), indent=1)
+        subprocess.run(["git", "-C", repo, "checkout", "--", "."])
+        # keep one replay file per check as an example, drop the rest and the evidence of the broken tree
+        rd = os.path.join(d, "replays")
+        if os.path.isdir(rd):
+            for sub in os.listdir(rd):
+                fs = sorted(os.listdir(os.path.join(rd, sub)))
+                for f in fs[1:]:
+                    os.unlink(os.path.join(rd, sub, f))
+        shutil.rmtree(os.path.join(d, "evidence"), ignore_errors=True)
+    json.dump(out, open(rf, "w"), indent=1)
 
 
 if __name__ == "__main__":
